@@ -33,6 +33,7 @@ If(c, body, orelse) == [T |-> "If", test |-> c, body |-> body, orelse |-> orelse
 For(v, iter, body) == [T |-> "For", target |-> Name(v), iter |-> iter, body |-> body, orelse |-> <<>>]
 Tup(es) == [T |-> "Tuple", elts |-> es]
 Arg(n, d) == [T |-> "arg", arg |-> n, tdesc |-> d]
+ArgT(n, d) == [T |-> "arg", arg |-> n, tdesc |-> d, spell |-> "Tuple"]   \* rendered as Tuple[...] even when homogeneous
 ParamArg(n, d) == [T |-> "arg", arg |-> n, tdesc |-> d, param |-> TRUE]
 FunDef(name, args, body, rd) == [T |-> "FunctionDef", name |-> name, args |-> [T |-> "arguments", args |-> args],
                                  body |-> body, rdesc |-> rd]
